@@ -40,6 +40,11 @@ def gen_frame_case(rng):
         fy, fx = fx + 7, fy
     dtype = str(rng.choice(['float32', 'float64', 'uint16', 'int32']))
     data = np.stack([cl.rand_frame(rng, fy, fx, str(rng.choice(['noise', 'blobs', 'structured'])))[0] for _ in range(n)]).astype(dtype)
+    backend = str(rng.choice(['numpy', 'numpy', 'sparse.COO', 'sparse.GCXS']))
+    if rng.integers(0, 3) == 0:
+        # event-like data: mostly empty frames with a few counts, some frames completely empty
+        data = (rng.random(size=data.shape) < 0.02).astype(dtype) * np.asarray(rng.integers(1, 4, size=data.shape), dtype=dtype)
+        data[int(rng.integers(0, n))] = 0
     npk = int(rng.integers(1, 6))
     base = np.array(cl.rand_peaks(rng, fy, fx, c, npk), dtype=np.float64)
     peaks = base + rng.choice([0.0, 0.5, 0.3, -0.5], size=base.shape)
@@ -55,7 +60,7 @@ def gen_frame_case(rng):
     limit = int(rng.choice([1, (2 * c) ** 2 * 4, (2 * c) ** 2 * 4 * 2 + 1, 2 ** 19]))
     upsample = [False, False, True, 4][int(rng.integers(0, 4))]
     return dict(pattern=pattern, desc=desc, data=data, peaks=peaks, zs=zs, zk=zk, limit=limit, upsample=upsample,
-                parts=rand_partitions(rng, n), method=str(rng.choice(['fast', 'full'])), crop=str(rng.choice(['default', 'slicing'])))
+                parts=rand_partitions(rng, n), method=str(rng.choice(['fast', 'full'])), crop=str(rng.choice(['default', 'slicing'])), backend=backend)
 
 
 def make_udf(c):
@@ -82,7 +87,7 @@ def standalone(c, i):
 def frame_udf_failure(c):
     try:
         override = {'crop_function': blc.crop_disks_from_frame_slicing} if c['crop'] == 'slicing' else None
-        res = run_udf(make_udf(c), c['data'], partitions=c['parts'], task_data_override=override)
+        res = run_udf(make_udf(c), c['data'], partitions=c['parts'], task_data_override=override, backend=c.get('backend', 'numpy'))
     except Exception as e:  # noqa
         return 'UDF run raised %s: %s' % (type(e).__name__, e)
     for i in range(len(c['data'])):
@@ -91,8 +96,8 @@ def frame_udf_failure(c):
         sc = float(np.abs(ref[2]).max()) + 1.0
         if not cl.results_close(got, ref, rtol=1e-5, scale=sc):
             k = [j for j in range(len(pk)) if not cl.results_close(tuple(g[j:j + 1] for g in got), tuple(r[j:j + 1] for r in ref), 1e-5, sc)][0]
-            return ('frame %d peak %s (%s UDF, partitions %s, limit %d, zero shift %s, crop %s, upsample %s): UDF centre %s refined %s height %.6g, stand-alone centre %s refined %s height %.6g'
-                    % (i, pk[k].tolist(), c['method'], c['parts'], c['limit'], c['zk'], c['crop'], c['upsample'], got[0][k].tolist(), got[1][k].tolist(), got[2][k],
+            return ('frame %d peak %s (%s UDF, back-end %s, partitions %s, limit %d, zero shift %s, crop %s, upsample %s): UDF centre %s refined %s height %.6g, stand-alone centre %s refined %s height %.6g'
+                    % (i, pk[k].tolist(), c['method'], c.get('backend', 'numpy'), c['parts'], c['limit'], c['zk'], c['crop'], c['upsample'], got[0][k].tolist(), got[1][k].tolist(), got[2][k],
                        ref[0][k].tolist(), ref[1][k].tolist(), ref[2][k]))
     return None
 
@@ -193,7 +198,7 @@ def mk_replay_frame(c, fail):
     return {'kind': 'schedule', 'call': '%sCorrelationUDF under the stand-in runner' % ('Fast' if c['method'] == 'fast' else 'FullFrame'),
             'args': {'pattern': c['desc'], 'data': c['data'].tolist(), 'dtype': str(c['data'].dtype), 'peaks': c['peaks'].tolist(), 'zero_shift_kind': c['zk'],
                      'zero_shift': None if c['zs'] is None else np.asarray(c['zs']).tolist(), 'limit': c['limit'], 'upsample': c['upsample'], 'partitions': c['parts'],
-                     'method': c['method'], 'crop': c['crop']}, 'failure': fail}
+                     'method': c['method'], 'crop': c['crop'], 'backend': c.get('backend', 'numpy')}, 'failure': fail}
 
 
 def replay(body):
@@ -204,7 +209,7 @@ def replay(body):
     else:
         c = dict(pattern=cl.pattern_from_desc(a['pattern']), desc=a['pattern'], data=np.array(a['data'], dtype=a['dtype']), peaks=np.array(a['peaks']),
                  zs=None if a['zero_shift'] is None else np.array(a['zero_shift']), zk=a['zero_shift_kind'], limit=a['limit'], upsample=a['upsample'], parts=a['partitions'],
-                 method=a['method'], crop=a['crop'])
+                 method=a['method'], crop=a['crop'], backend=a.get('backend', 'numpy'))
         fail = frame_udf_failure(c)
     print(json.dumps({'failure_now': fail}, indent=1))
     if fail:
@@ -289,8 +294,8 @@ def run(ctx):
     for k in range(nS):
         c = gen_frame_case(rng)
         fail = frame_udf_failure(c)
-        ctx.count(len(c['data']), key=(c['desc'], c['data'].shape, c['peaks'].tolist(), c['parts'], c['limit'], c['zk'], c['method'], c['crop'], c['upsample']))
-        for nm in ('method', 'zk', 'crop', 'upsample', 'limit'):
+        ctx.count(len(c['data']), key=(c['desc'], c['data'].shape, c['peaks'].tolist(), c['parts'], c['limit'], c['zk'], c['method'], c['crop'], c['upsample'], c['backend']))
+        for nm in ('method', 'zk', 'crop', 'upsample', 'limit', 'backend'):
             ctx.hist(nm, c[nm])
         ctx.hist('partitions', len(c['parts']))
         if len(ctx.cov['samples']) < 4:
@@ -329,4 +334,4 @@ def run(ctx):
                     'scaling is tiling independent only when tiles share the minimum (partial) and refuted in general (known finding F9). Tie: spied peaks vs shifted_peak, '
                     'sparse corr buffer vs the per-tile model; oracle: real UDF classes under the stand-in runner vs the stand-alone functions.',
         rule='1..8 frames, random set partitions in permuted order, byte limits 1 / one crop / two crops+1 / 512 kB, zero shift none/constant/per-frame/half-integer, '
-             'fractional peaks, upsampling off/True/4, dtypes, default and slicing crop function, tall/wide frames; sparse: 4 tilings x depth 1..3, data with shared and with differing tile minima.')
+             'fractional peaks, upsampling off/True/4, dtypes, default and slicing crop function, numpy / sparse.COO / sparse.GCXS array back-ends (frames delivered in that format), event-like data with empty frames, tall/wide frames; sparse: 4 tilings x depth 1..3, data with shared and with differing tile minima.')
